@@ -2,7 +2,8 @@
 //! over two in-memory pipes (`crate::verif::io`). The adapter is the remote peer (it reads the outbound
 //! pipe with a bounded capacity, writes frames into the inbound pipe), the user (sync/async sends,
 //! polling the handle) and the scheduler (`run` polls the task and the waiting async sends until nothing
-//! moves). Payloads carry a mode tag and a sequence number.
+//! moves; `drain` = `run` and `rread` in turns until nothing moves and the outbound pipe stays empty).
+//! Payloads carry a mode tag and a sequence number.
 
 use super::{
     connection::Connection,
@@ -114,8 +115,14 @@ impl Inner {
 
     /// Poll the connection task and the waiting async sends until nothing moves.
     fn run(&mut self) -> String {
+        self.run_progress().0
+    }
+
+    /// As [`Inner::run`]; the flag tells whether anything was polled at all.
+    fn run_progress(&mut self) -> (String, bool) {
         let mut done_async = Vec::new();
         let mut ended = false;
+        let mut any = false;
         for _ in 0..10_000 {
             let mut progress = false;
             if let Some(live) = self.live.as_mut() {
@@ -152,6 +159,7 @@ impl Inner {
             if !progress {
                 break;
             }
+            any = true;
         }
         let mut res = vec!["ok".to_string()];
         if !done_async.is_empty() {
@@ -163,9 +171,48 @@ impl Inner {
         while let Ok(_) = self.notice_rx.try_recv() {
             res.push("notice".into());
         }
-        res.join(" ")
+        (res.join(" "), any)
+    }
+
+    /// The remote reads whatever is in the outbound pipe; the complete frames, labelled.
+    fn remote_read(&mut self, n: Option<usize>) -> Option<(String, usize)> {
+        let live = self.live.as_mut()?;
+        let bytes = match n {
+            Some(n) => live.out.remote_read(n),
+            None => live.out.remote_read_all(),
+        };
+        live.rbuf.extend_from_slice(&bytes);
+        let (frames, used) = unframe(&live.rbuf);
+        live.rbuf.drain(..used);
+        Some((
+            format!("[{}]", frames.iter().map(|f| label(f)).collect::<Vec<_>>().join(" ")),
+            bytes.len(),
+        ))
+    }
+
+    /// `run` and `rread` in turns until a round in which nothing was polled and the remote read no
+    /// byte (`quiet`): the outputs of the single steps joined by ` | `.
+    fn drain(&mut self) -> String {
+        if self.live.is_none() {
+            return "ignored".into();
+        }
+        let mut parts = Vec::new();
+        for _ in 0..DRAIN_ROUNDS {
+            let (r, any) = self.run_progress();
+            let Some((frames, n)) = self.remote_read(None) else { break };
+            parts.push(r);
+            parts.push(frames);
+            if !any && n == 0 {
+                parts.push("quiet".into());
+                break;
+            }
+        }
+        parts.join(" | ")
     }
 }
+
+/// Upper bound of the rounds of one `drain`.
+const DRAIN_ROUNDS: usize = 400;
 
 impl VerifBox for ChanBox {
     fn step(&mut self, line: &str) -> String {
@@ -286,17 +333,11 @@ impl VerifBox for ChanBox {
                 }
             }
             ["run"] => inner.run(),
-            ["rread", rest @ ..] => {
-                let Some(live) = inner.live.as_mut() else { return "ignored".into() };
-                let bytes = match rest.first().and_then(|x| num(x)) {
-                    Some(n) => live.out.remote_read(n),
-                    None => live.out.remote_read_all(),
-                };
-                live.rbuf.extend_from_slice(&bytes);
-                let (frames, used) = unframe(&live.rbuf);
-                live.rbuf.drain(..used);
-                format!("[{}]", frames.iter().map(|f| label(f)).collect::<Vec<_>>().join(" "))
-            }
+            ["rread", rest @ ..] => match inner.remote_read(rest.first().and_then(|x| num(x))) {
+                Some((frames, _)) => frames,
+                None => "ignored".into(),
+            },
+            ["drain"] => inner.drain(),
             ["rsend", seq, size] => {
                 let (Some(seq), Some(size)) = (num(seq), num(size)) else { return "bad-op".into() };
                 let Some(live) = inner.live.as_mut() else { return "ignored".into() };
